@@ -210,8 +210,38 @@ class OptimizeAnalysis:
         self.return_nodes = [n for n in cfg.reachable() if cfg.kind[n] == "return"]
         # the convergence test: the innermost If inside the main loop whose True or False arm ends in a return
         self.conv_if = None
+        def leaves_main_loop(stmts):
+            # a `return`, or a `break` that belongs to the main loop (not to a loop nested in these statements)
+            for x in stmts:
+                if isinstance(x, (ast.Return, ast.Break)):
+                    return True
+                if isinstance(x, (ast.If, ast.With, ast.Try)):
+                    for fld in ("body", "orelse", "finalbody"):
+                        if leaves_main_loop(getattr(x, fld, []) or []):
+                            return True
+            return False
+
+        def in_main_loop_only(target):
+            # is `target` nested in the main loop without an intermediate loop?
+            def rec(stmts):
+                for x in stmts:
+                    if x is target:
+                        return True
+                    if isinstance(x, (ast.For, ast.While)):
+                        if any(y is target for y in ast.walk(x)):
+                            return any(isinstance(y, ast.Return) for y in ast.walk(target))   # only a return leaves from a nested loop
+                        continue
+                    for fld in ("body", "orelse", "finalbody"):
+                        if rec(getattr(x, fld, []) or []):
+                            return True
+                    for h in getattr(x, "handlers", []) or []:
+                        if rec(h.body):
+                            return True
+                return False
+            return rec(self.main_loop.body)
         for st in ast.walk(self.main_loop):
-            if isinstance(st, ast.If) and any(isinstance(x, ast.Return) for x in st.body) and self._test_mentions_chi2(st.test):
+            if isinstance(st, ast.If) and st not in (self.main_loop,) and leaves_main_loop(st.body) and self._test_mentions_chi2(st.test) \
+                    and in_main_loop_only(st):
                 self.conv_if = st
         self.conv_node = cfg.node_of(self.conv_if) if self.conv_if is not None else None
 
